@@ -6,6 +6,8 @@
 import OFV.Driver.Core
 import OFV.Model.V
 import OFV.Spec.Walk
+import OFV.Spec.Layout
+import OFV.Gen.Structs
 namespace OFV.Driver.Oracles
 open OFV OFV.Driver OFV.Model
 
@@ -57,6 +59,9 @@ def isHeaderObj : V → Bool
       k = "HelloElemHeader" || k = "NXLearnSpecHeader"
   | _ => false
 
+/-- kinds whose MatchField-typed fields are written as 4-byte header words, not as TLVs -/
+def headerOnly : List String := ["NXActionRegLoad", "NXActionRegMove", "NXActionOutputReg", "NXLearnSpecField"]
+
 partial def shapeOf (v : V) : List String :=
   match v with
   | .list xs => (xs.map shapeOf).flatten
@@ -76,7 +81,7 @@ partial def shapeOf (v : V) : List String :=
       | "VendorHeader", _ :: .num vendor :: .num et :: _ =>
         [if vendor = 0x2320 then s!"nxt {et}" else if vendor = 0x4f4e4600 then s!"onf {et}" else s!"exp {vendor} {et}"]
       | _, _ => []
-    let kids := if k = "MatchField" ∨ k = "Header" then [] else
+    let kids := if k = "MatchField" ∨ k = "Header" ∨ headerOnly.contains k then [] else
       ((fs.filter (fun f => ¬ isHeaderObj f)).map shapeOf).flatten
     own ++ extra ++ kids
   | _ => []
@@ -147,5 +152,157 @@ def c02elem (o : Obs) : List (String × String) :=
     else if c.startsWith "oxm " then chk (Spec.walkOxms (bs.length + 8) bs)
     else []
   | none => []
+
+/-! ### C03: every supplied value sits at the offset, width and byte order the specification assigns to its field -/
+
+/-- the elements of a value in the walker's pre-order, as values (same traversal as `shapeOf`) -/
+partial def elemsOf (v : V) : List (String × V) :=
+  match v with
+  | .list xs => (xs.map elemsOf).flatten
+  | .obj k fs =>
+    let own : List (String × V) := match code v with
+      | some c => [(c, v)]
+      | none =>
+        match fs with
+        | h :: _ => (match headerType h with
+          | some ty => [(s!"msg {ty}", v)]
+          | none => [])
+        | [] => []
+    let extra : List (String × V) :=
+      match k, fs with
+      | "MultipartRequest", _ :: .num t :: _ => [(s!"mp {t}", (fs.getLast?.getD .nil))]
+      | "VendorHeader", _ :: .num vendor :: .num et :: _ =>
+        [(if vendor = 0x2320 then s!"nxt {et}" else if vendor = 0x4f4e4600 then s!"onf {et}" else s!"exp {vendor} {et}",
+          fs.getLast?.getD .nil)]
+      | _, _ => []
+    let kids := if k = "MatchField" ∨ k = "Header" ∨ headerOnly.contains k then [] else
+      ((fs.filter (fun f => ¬ isHeaderObj f)).map elemsOf).flatten
+    own ++ extra ++ kids
+  | _ => []
+
+/-- field of a struct value by Go field name (also through one level of embedding) -/
+def fieldOf (v : V) (name : String) : Option V :=
+  match v with
+  | .obj k fs =>
+    match Gen.structFields.lookup k with
+    | some ns => (match ns.findIdx? (· = name) with
+      | some i => fs[i]?
+      | none => none)
+    | none => none
+  | _ => none
+
+/-- OXM header word of a MatchField value, per the specification: class<<16 | field<<9 | hasmask<<8 | length -/
+def hdrWordOf : V → Option Nat
+  | .obj "MatchField" (.num c :: .num f :: .num m :: .num l :: _) => some (c * 65536 + f * 512 + m * 256 + l)
+  | _ => none
+
+/-- bytes a match-field payload value stands for (numbers in the field's width) -/
+def payloadBytes (w : Nat) : V → Option Bytes
+  | .obj _ [.num n] => some ((List.range w).map (fun i => UInt8.ofNat (n / 256 ^ (w - 1 - i) % 256)))
+  | .obj _ [.bytes b] => some b
+  | .obj "ByteArrayField" [.bytes b, _] => some b
+  | _ => none
+
+def checkElem (code : String) (v : V) (bs : Bytes) : List String :=
+  let fixed : List String :=
+    match Spec.layouts.lookup v.kind with
+    | none => []
+    | some fls => fls.filterMap fun fl =>
+      match fieldOf v fl.name with
+      | none => some s!"{v.kind}.{fl.name}: no such field"
+      | some fv =>
+        let got := Spec.beAt bs fl.off fl.width
+        match fl.kind, fv with
+        | .num, .num n => if got = n then none else some s!"{v.kind}.{fl.name} = {n} but the {fl.width} bytes at offset {fl.off} hold {got}"
+        | .raw, .bytes b => if (bs.drop fl.off).take fl.width = b then none else some s!"{v.kind}.{fl.name} = {toHex b} but offset {fl.off} holds {toHex ((bs.drop fl.off).take fl.width)}"
+        | .hdrWord, mf => (match hdrWordOf mf with
+          | some w => if got = w then none else some s!"{v.kind}.{fl.name}: header word {w} expected at offset {fl.off}, found {got}"
+          | none => none)
+        | _, _ => none
+  let special : List String :=
+    if code.startsWith "oxm " then
+      match v with
+      | .obj "MatchField" [.num c, _, .num m, .num _, .num _, val, mask] =>
+        let start := if c = 0xffff then 8 else 4
+        let pl := bs.drop start
+        let w := if m = 1 then pl.length / 2 else pl.length
+        match payloadBytes w val, (if m = 1 then payloadBytes w mask else some []) with
+        | some vb, some mb => if pl = vb ++ mb then [] else [s!"match field payload {toHex pl}, supplied value {toHex vb} mask {toHex mb}"]
+        | _, _ => []
+      | _ => []
+    else if v.kind = "NXActionCTNAT" then
+      -- optional parts in OVS order, exactly those whose presence bit is set
+      match v with
+      | .obj _ [_, _, _, .num present, v4min, v4max, v6min, v6max, pmin, pmax] =>
+        let last4 (x : V) : Bytes := let b := x.asBytes; if b.length = 16 then b.drop 12 else b
+        let parts : List (Nat × Bytes) :=
+          [(1, last4 v4min), (2, last4 v4max), (4, v6min.asBytes), (8, v6max.asBytes),
+           (16, be16 (n16 pmin.asNat)), (32, be16 (n16 pmax.asNat))]
+        let want := (parts.filter (fun p => present / p.1 % 2 = 1)).foldl (fun acc p => acc ++ p.2) []
+        let got := (bs.drop 16).take want.length
+        (if got = want then [] else [s!"nat ranges (present={present}): want {toHex want} got {toHex got}"]) ++
+        -- a supplied range must be announced by its presence bit
+        (parts.filterMap fun p =>
+          let supplied : Bool := match p.1 with
+            | 1 => !v4min.asBytes.isEmpty | 2 => !v4max.asBytes.isEmpty | 4 => !v6min.asBytes.isEmpty
+            | 8 => !v6max.asBytes.isEmpty | 16 => !pmin.isNil | _ => !pmax.isNil
+          if supplied && present / p.1 % 2 == 0 then some s!"nat range bit {p.1} supplied but not announced" else none)
+      | _ => []
+    else if v.kind = "NXActionDecTTLCntIDs" then
+      match fieldOf v "cntIDs" with
+      | some (.list ids) =>
+        let want := ids.foldl (fun acc i => acc ++ be16 (n16 i.asNat)) []
+        if (bs.drop 16).take want.length = want then [] else [s!"dec_ttl_cnt_ids ids {toHex ((bs.drop 16).take want.length)} want {toHex want}"]
+      | _ => []
+    else if v.kind = "NXActionNote" then
+      match fieldOf v "Note" with
+      | some (.bytes n) => if (bs.drop 10).take n.length = n then [] else ["note bytes differ"]
+      | _ => []
+    else if v.kind = "NXLearnSpec" then
+      match v with
+      | .obj _ [.obj _ [.num src, .num dst, .num out, .num nbits, _], sf, df, .bytes sv] =>
+        let hdrWant := (if out = 1 then 2 * 2048 else (if src = 1 then 8192 else 0) + (if dst = 1 then 2048 else 0)) + nbits
+        let specField (f : V) : Bytes := match f with
+          | .obj "NXLearnSpecField" [mf, .num ofs] => be32 (n32 ((hdrWordOf mf).getD 0)) ++ be16 (n16 ofs)
+          | _ => []
+        let srcB := if src = 1 then sv.take (2 * ((nbits + 15) / 16)) else specField sf
+        let dstB := if out = 1 then [] else specField df
+        let want := be16 (n16 hdrWant) ++ srcB ++ dstB
+        if bs = want then [] else [s!"learn spec {toHex bs}, supplied {toHex want}"]
+      | _ => []
+    else []
+  fixed ++ special
+
+def c03 (o : Obs) : List (String × String) :=
+  if ¬ isCtlMsg o.dump ∨ o.bytes.length > 65535 then [] else
+  match Spec.walk o.bytes with
+  | .error _ => []      -- reported by C02
+  | .ok t =>
+    let es := t.flatBytes
+    let vs := elemsOf o.dump
+    if es.map (·.1) ≠ vs.map (·.1) then [] else   -- reported by C02
+    let bad := ((es.zip vs).map fun ((c, b), (_, v)) => checkElem c v b).flatten
+    bad.map (fun d => ("C03", d))
+
+/-- element-level C03 for a single action / instruction / bucket / match field observed on its own -/
+def c03elem (o : Obs) : List (String × String) :=
+  let bs := o.bytes
+  let r : Spec.W (List Spec.Tree) :=
+    match code o.dump with
+    | some c =>
+      if c.startsWith "act " ∨ c.startsWith "nx " then Spec.walkActions (bs.length + 8) bs
+      else if c.startsWith "ins " then Spec.walkInstrs (bs.length + 8) bs
+      else if c = "bucket" then Spec.walkBuckets (bs.length + 8) bs
+      else if c.startsWith "oxm " then Spec.walkOxms (bs.length + 8) bs
+      else if c = "match" then (do let (t, _) ← Spec.walkMatch bs; pure [t])
+      else .ok []
+    | none => .ok []
+  match r with
+  | .error _ => []
+  | .ok ts =>
+    let es := (ts.map Spec.Tree.flatBytes).flatten
+    let vs := elemsOf o.dump
+    if es.map (·.1) ≠ vs.map (·.1) then [] else
+    (((es.zip vs).map fun ((c, b), (_, v)) => checkElem c v b).flatten).map (fun d => ("C03", d))
 
 end OFV.Driver.Oracles
